@@ -287,13 +287,28 @@ func (sc *Context) DocValueReaderForReader(r DocumentValueReadable, fields []str
 	dvReader := sc.dvReaders[r]
 	if dvReader == nil {
 		var err error
-		dvReader, err = r.DocumentValueReader(fields)
+		dvReader, err = r.DocumentValueReader(uniqueFields(fields))
 		if err != nil {
 			return nil, err
 		}
 		sc.dvReaders[r] = dvReader
 	}
 	return dvReader, nil
+}
+
+// uniqueFields drops repeated names: a field named by several aggregations
+// (or by the sort order and an aggregation) must be loaded only once per
+// hit, otherwise every doc value of that field is seen once per mention.
+func uniqueFields(fields []string) []string {
+	seen := make(map[string]struct{}, len(fields))
+	rv := make([]string, 0, len(fields))
+	for _, field := range fields {
+		if _, ok := seen[field]; !ok {
+			seen[field] = struct{}{}
+			rv = append(rv, field)
+		}
+	}
+	return rv
 }
 
 func (sc *Context) Size() int {
